@@ -5,6 +5,7 @@ From Coq Require Import ZArith List.
 From Coq Require Import ExtrOcamlBasic ExtrOcamlZBigInt.
 From MV Require Import Model.Insphere Model.Cycle Model.CellExact Model.Assemble.
 From MV Require Model.BestFirst Model.Knn.
+From MV Require Proofs.FaceClose.
 
 Extract Constant Z.gcd => "Big_int_Z.gcd_big_int".
 
@@ -14,5 +15,5 @@ Extraction "model.ml" insphere_model in_gridb
   build build_all build_regularb cell_init clip bisector max_radius2 decompose decompose_faces faces_of
   vol6_of centroid_sum moment2 face_area2n face_centroid_sum plane_has_tet side norm2 vertices_feasible duals_oriented
   assemble tess_neighbour_ids face_integrals face_integrals_sym cell_integrals cell_is_active face_indices
-  BestFirst.visits Knn.knn_search
+  BestFirst.visits Knn.knn_search FaceClose.surfaceb
   hdefault plane_default.
